@@ -89,10 +89,10 @@ theorem parseShort_eq (specs : List OptionSpec) (s : Bytes) :
 /-! ### Long option words -/
 
 /-- What `parseLongFrom` returns for the spec found by the look-up. -/
-def longHit (value : Option Bytes) (x : Nat × OptionSpec) : Opt × Bool :=
+def longHit (value : Option Bytes) (x : Nat × OptionSpec) : Opt × Bool × Bool :=
   match value with
-  | none => (known x.1 x.2 true [], x.2.arity == RequiredArgument)
-  | some v => (known x.1 x.2 true v, false)
+  | none => (known x.1 x.2 true [], x.2.arity == RequiredArgument, false)
+  | some v => (known x.1 x.2 true v, false, x.2.arity == NoArgument)
 
 theorem parseLongFrom_eq (s : Bytes) (l : List OptionSpec) (hwf : ∀ sp ∈ l, eqSign ∉ sp.long)
     (eq : Option Nat) (heq : indexEq s = eq) :
@@ -132,7 +132,7 @@ theorem parseLongFrom_eq (s : Bytes) (l : List OptionSpec) (hwf : ∀ sp ∈ l, 
 /-- Fixed `parseLong` = the spec's `longWord` (for long names without `=`). -/
 theorem parseLong_eq (specs : List OptionSpec) (hwf : WF specs) (s : Bytes) :
     ∃ o, wordOpts (longWord specs s) = [o] ∧
-      parseLong true s specs = .ok (o, (longWord specs s).2.isSome) := by
+      parseLong true s specs = .ok (o, (longWord specs s).2.isSome, (longWord specs s).1.any isBadArg) := by
   unfold parseLong
   simp only [parseLongFrom_eq s specs hwf _ rfl 0]
   unfold longWord lookupLong
@@ -143,26 +143,33 @@ theorem parseLong_eq (specs : List OptionSpec) (hwf : WF specs) (s : Bytes) :
     · obtain ⟨h1, _⟩ := indexEq_none s hi
       obtain ⟨rfl, rfl⟩ : name = s ∧ value = none := by
         rw [hsp] at h1; simpa using h1
-      simp [wordOpts, optsOf, Item.toOpt, unknownLongOpt, argOf]
+      simp [wordOpts, optsOf, Item.toOpt, unknownLongOpt, argOf, isBadArg]
     · obtain ⟨h1, h2⟩ := indexEq_some s e hi
       obtain ⟨rfl, rfl⟩ : name = s.take e ∧ value = some (s.drop (e + 1)) := by
         rw [hsp] at h2; simpa using h2
       simp only [Option.map_none]
       rw [slice_to s e (by omega), slice_from s (e + 1) (by omega)]
-      simp [wordOpts, optsOf, Item.toOpt, unknownLongOpt, argOf]
+      simp [wordOpts, optsOf, Item.toOpt, unknownLongOpt, argOf, isBadArg]
   · rcases value with _ | v
     · simp only [Option.map_some, longHit]
       rcases ha : arityOf sp.arity with _ | _ | _
       · have hr : ¬ (sp.arity == RequiredArgument) = true := by
           rw [← arityOf_required_iff, ha]; simp
-        simp [hr, wordOpts, optsOf, Item.toOpt, argOf]
+        simp [hr, wordOpts, optsOf, Item.toOpt, argOf, isBadArg]
       · have hr := (arityOf_required_iff _).mp ha
         simp [hr, wordOpts, optsOf]
       · have hr : ¬ (sp.arity == RequiredArgument) = true := by
           rw [← arityOf_required_iff, ha]; simp
-        simp [hr, wordOpts, optsOf, Item.toOpt, argOf]
+        simp [hr, wordOpts, optsOf, Item.toOpt, argOf, isBadArg]
     · simp only [Option.map_some, longHit]
-      rcases ha : arityOf sp.arity with _ | _ | _ <;>
-        simp [wordOpts, optsOf, Item.toOpt, argOf]
+      rcases ha : arityOf sp.arity with _ | _ | _
+      · have hn := (arityOf_none_iff _).mp ha
+        simp [hn, wordOpts, optsOf, Item.toOpt, argOf, isBadArg]
+      · have hn : ¬ (sp.arity == NoArgument) = true := by
+          rw [← arityOf_none_iff, ha]; simp
+        simp [hn, wordOpts, optsOf, Item.toOpt, argOf, isBadArg]
+      · have hn : ¬ (sp.arity == NoArgument) = true := by
+          rw [← arityOf_none_iff, ha]; simp
+        simp [hn, wordOpts, optsOf, Item.toOpt, argOf, isBadArg]
 
 end C38.Proofs
